@@ -132,7 +132,7 @@ def check(run):
             run.violation("%s: delivered %d row lines ending %s; expected exactly the first %d rows and then the stop" % (what, len(o) - 1, o[-2:], len(exp) - 1),
                           {"kind": "early-stop", "db": db.path, "command": cid, "impl": o[-3:], "expected_tail": exp[-2:]})
             break
-    res, impl, model = ops.run_cmds("c17-stops", lines, timeout=2400, shards=8)
+    res, impl, model = ops.run_cmds("c17-stops", lines, timeout=2400 if quick else 7200, shards=8 if quick else 24)
     for cid, cmd in lines:
         if cid not in meta:
             continue
